@@ -59,6 +59,9 @@ for _f in ('_TypeMap.__init__', '_TypeMap.__or__'):
 
 SCRIPTS['malt.pyct.transpiler._PythonFnFactory.instantiate'] = ('bounded/c09_interface.py', ['1', 'quick'])
 
+for _f in ('_TransformedFnCache.has', '_TransformedFnCache.__getitem__', 'CodeObjectCache._get_key', 'UnboundInstanceCache._get_key'):
+  SCRIPTS['malt.pyct.cache.' + _f] = ('bounded/rt_cache.py', ['0', 'quick'])
+
 _cache = {}
 
 
